@@ -11,6 +11,11 @@ def run(ctx):
         return [ec.gen_minimality_history(rnd, 'C03_m%d' % i) for i in range(2500 if ctx.quick() else 20000)] + \
                [ec.motif_deps_swap(rnd, 'C03_swap%d' % i) for i in range(60)]      # a restat+deps command re-reports a different dependency list
     def orc(h, st, b, prev):
+        if h.sid.startswith('C03_swap'):
+            # directed histories without a single-change annotation: "exactly the affected commands" is judged by the contents
+            # (an affected command that did not run leaves a stale output) -- the known deps findings do not occur in this motif
+            bad1 = ec.oracle_c01(h, st, b)
+            return ['an affected command was not re-run: ' + t for _, _, t in bad1[:3]] if bad1 else None
         bad = ec.oracle_c03(h, st, b, prev)
         if bad and 'restat-prune-ignores-recorded-deps' in known and all('did not run' in x for x in bad):
             g = st.g; prod = g.producer()
